@@ -22,7 +22,7 @@ func init() {
 		Explanation: "D1 every effect of NewEpoch is preceded by epochNum > stored epoch (and the Alphabet witness, C03); the epoch key is written with Param(epochNum) and has no other writer except the fresh deploy. D2 NewEpoch writes neither candidate family. " +
 			"D3 publication: 'snapshot_'‖id receives the list built from the scan of 'candidate' filtered by State != Offline, 'p'‖BE4(epochNum)‖key → value for every item of the scan of '2', snapshotBlock = current height, exactly one NewEpoch(epochNum) notification on every path. " +
 			"D4 fan-out: one contract.Call(hash, \"newEpoch\", All, epochNum) per item of the forward scan of 'e' (hash = key without the index byte), loop left only on exhaustion, no exception-catching frame; subscription keys are 'e'‖byte(index)‖hash so scan order is subscription order. " +
-			"D5 SubscribeForNewEpoch writes only after the candidate contract was compared with every stored subscriber and found different (membership loop dominates the write), the index is the number of stored entries. M: the contract's own code faults only without the Alphabet witness or with epochNum ≤ the stored epoch (converse of the epoch guard); snapshot loader. R8: a fixed-width key encoder reverses the padded buffer, not the variable-length source (otherwise 1, 256, 65536 share a key).",
+			"D5 SubscribeForNewEpoch writes only after the candidate contract was compared with every stored subscriber and found different (membership loop dominates the write), the index is the number of stored entries. M: the contract's own code faults only without the Alphabet witness or with epochNum ≤ the stored epoch (converse of the epoch guard); snapshot loader. R8: a fixed-width key encoder reverses the padded buffer, not the variable-length source (otherwise 1, 256, 65536 share a key). R10: no stored value the tick divides by can be written as 0 (shared with C08).",
 		NotCovered: "equality of the published maps with a model after arbitrary histories; behaviour of subscribers.",
 		Run:        runC06,
 	})
@@ -41,7 +41,7 @@ func init() {
 		Level:     "other",
 		Technique: "divisor-non-zero rule over storage writers (must-facts at every writer of the count key), sibling agreement of the retention bounds read off the loop header as canonical linear terms, must-facts at the ring index computation",
 		Explanation: "D1 NewEpoch and Snapshot compute '% stored snapshotCount'; every writer of that key stores a value established > 0 (so any accepted count leaves the contract able to tick). D2 NewEpoch keeps the per-epoch lists of epochs (e−N, e] (drops e−N under e > N); the drop loop of UpdateSnapshotCount covers exactly [cur−old+1, cur−new] (bounds read off the loop as linear terms over the stored epoch, the stored old count and the parameter). " +
-			"D3 Snapshot establishes 0 ≤ diff < count before indexing the ring; ListNodesEpoch scans 'p'‖BE4(epoch) with the same fixed-width encoder that NewEpoch and dropNetmap use. D4 every normal path of UpdateSnapshotCount on which the window shrinks runs the drop loop (skip-edge rule); writer, reader and dropper of the per-epoch lists use one structurally identified fixed-width encoder. M: Snapshot reads slot (current − diff + count) % count and faults only for diff outside 0 … count−1; NewEpoch advances the ring index by one modulo count. R6 ring-move: a single resize moves and frees exactly the slots of the in-place algorithm — grow: slot t := slot t−(new−old) for t = new−1 … current+1+(new−old) downwards, slots current+1 … min(current+1+(new−old), old)−1 freed; shrink: slot t := slot t+(old−new) for t = current+1 … new−1 (current < new) or slot t := slot t+(current−new+1) for t = 0 … new−1 with current := new−1 (current ≥ new), slots new … old−1 freed — compared as canonical linear terms under the branch facts and the order axioms of the integers. R7: no iteration of a move loop goes round its Put (every target slot is written).",
+			"D3 Snapshot establishes 0 ≤ diff < count before indexing the ring; ListNodesEpoch scans 'p'‖BE4(epoch) with the same fixed-width encoder that NewEpoch and dropNetmap use. D4 every normal path of UpdateSnapshotCount on which the window shrinks runs the drop loop (skip-edge rule); writer, reader and dropper of the per-epoch lists use one structurally identified fixed-width encoder. M: Snapshot reads slot (current − diff + count) % count and faults only for diff outside 0 … count−1; NewEpoch advances the ring index by one modulo count. R6 ring-move: a single resize moves and frees exactly the slots of the in-place algorithm — grow: slot t := slot t−(new−old) for t = new−1 … current+1+(new−old) downwards, slots current+1 … min(current+1+(new−old), old)−1 freed; shrink: slot t := slot t+(old−new) for t = current+1 … new−1 (current < new) or slot t := slot t+(current−new+1) for t = 0 … new−1 with current := new−1 (current ≥ new), slots new … old−1 freed — compared as canonical linear terms under the branch facts and the order axioms of the integers. R7: no iteration of a move loop goes round its Put (every target slot is written). R10: a fixed-width key encoder is total (no fault for any number).",
 		NotCovered: "what the ring holds after sequences of resizes and ticks (modular positions over histories): a relation between run-time integers over time, not decidable by this family; the per-call slot sets of a single resize are decided (ring-move).",
 		Run:        runC08,
 	})
@@ -81,6 +81,11 @@ func runC06(cx *CheckCtx) {
 		if m := cx.method("netmap", name); m != nil {
 			gateRule(cx, m)
 		}
+	}
+	// … "succeeds iff Alphabet-witnessed, the epoch grows and no subscriber rejects": nothing else may make
+	// a tick fault — in particular no stored value the tick divides by can be written as 0 (shared with C08)
+	if nc := cx.contract("netmap"); nc != nil {
+		checkStoredDivisors(cx, nc)
 	}
 	c := cx.contract("netmap")
 	if c == nil {
@@ -739,57 +744,7 @@ func runC08(cx *CheckCtx) {
 	if c == nil {
 		return
 	}
-	// D1: divisors that are storage reads, and every writer of their key
-	divKeys := map[string]string{}
-	for _, m := range c.Methods {
-		a := cx.run(m)
-		for _, wt := range a.watches {
-			bo := wt.Instr.(*ssa.BinOp)
-			d := a.tb.Term(wt.Ctx, bo.Y)
-			for _, alt := range a.tb.Alts(d) {
-				if alt.Op == "read" {
-					if k, ok := alt.Args[0].BytesConst(); ok {
-						divKeys[k] = w.pos(bo.Pos())
-					}
-				}
-			}
-		}
-	}
-	cx.count("stored_divisors", len(divKeys))
-	roots := append([]*Method{}, c.Methods...)
-	if dm := cx.method("netmap", "_deploy"); dm != nil {
-		roots = append(roots, dm)
-	}
-	nW := 0
-	for _, m := range roots {
-		a := cx.run(m)
-		for _, s := range a.RealEffects() {
-			if s.Effect != "put" {
-				if s.Effect == "delete" {
-					if k, ok := s.Args[1].BytesConst(); ok && divKeys[k] != "" {
-						cx.violated("divisor-nonzero", "netmap."+m.GoName+"/"+siteConstruct(a, s), "the key "+k+" used as a divisor at "+divKeys[k]+" is deleted", s.Where(w))
-					}
-				}
-				continue
-			}
-			k, ok := s.Args[1].BytesConst()
-			if !ok || divKeys[k] == "" {
-				continue
-			}
-			nW++
-			v := a.canonAt(s, s.Args[2])
-			pos := false
-			if n, isC := v.IntConst(); isC {
-				pos = n > 0
-			} else {
-				pos = a.holdsAt(s.In, -a.litLtC(v, 1))
-			}
-			cx.decide(pos, "divisor-nonzero", "netmap."+m.GoName+"/"+siteConstruct(a, s), "stores a value established > 0", "'"+k+"' is used as a divisor ("+divKeys[k]+") but "+m.GoName+" can store a value that is not > 0 ("+v.pretty()+"): every later tick would fault", s.Where(w))
-		}
-	}
-	cx.count("divisor_writers", nW)
-	cx.floor("stored_divisors", 1)
-	cx.floor("divisor_writers", 2)
+	checkStoredDivisors(cx, c)
 	// D2: retention agreement
 	var keepLower *Term // NewEpoch drops epoch e - N
 	if m := cx.method("netmap", "NewEpoch"); m != nil {
@@ -1145,4 +1100,61 @@ func hasLt(a *Analysis, st *CNF, x, y *Term) bool {
 		}
 	}
 	return false
+}
+
+// checkStoredDivisors: D1 of C08, shared with C06 ("a tick succeeds iff …": a stored divisor of the tick
+// that can be written as 0 makes every later tick fault).
+func checkStoredDivisors(cx *CheckCtx, c *Contract) {
+	w := cx.W
+	// D1: divisors that are storage reads, and every writer of their key
+	divKeys := map[string]string{}
+	for _, m := range c.Methods {
+		a := cx.run(m)
+		for _, wt := range a.watches {
+			bo := wt.Instr.(*ssa.BinOp)
+			d := a.tb.Term(wt.Ctx, bo.Y)
+			for _, alt := range a.tb.Alts(d) {
+				if alt.Op == "read" {
+					if k, ok := alt.Args[0].BytesConst(); ok {
+						divKeys[k] = w.pos(bo.Pos())
+					}
+				}
+			}
+		}
+	}
+	cx.count("stored_divisors", len(divKeys))
+	roots := append([]*Method{}, c.Methods...)
+	if dm := cx.method("netmap", "_deploy"); dm != nil {
+		roots = append(roots, dm)
+	}
+	nW := 0
+	for _, m := range roots {
+		a := cx.run(m)
+		for _, s := range a.RealEffects() {
+			if s.Effect != "put" {
+				if s.Effect == "delete" {
+					if k, ok := s.Args[1].BytesConst(); ok && divKeys[k] != "" {
+						cx.violated("divisor-nonzero", "netmap."+m.GoName+"/"+siteConstruct(a, s), "the key "+k+" used as a divisor at "+divKeys[k]+" is deleted", s.Where(w))
+					}
+				}
+				continue
+			}
+			k, ok := s.Args[1].BytesConst()
+			if !ok || divKeys[k] == "" {
+				continue
+			}
+			nW++
+			v := a.canonAt(s, s.Args[2])
+			pos := false
+			if n, isC := v.IntConst(); isC {
+				pos = n > 0
+			} else {
+				pos = a.holdsAt(s.In, -a.litLtC(v, 1))
+			}
+			cx.decide(pos, "divisor-nonzero", "netmap."+m.GoName+"/"+siteConstruct(a, s), "stores a value established > 0", "'"+k+"' is used as a divisor ("+divKeys[k]+") but "+m.GoName+" can store a value that is not > 0 ("+v.pretty()+"): every later tick would fault", s.Where(w))
+		}
+	}
+	cx.count("divisor_writers", nW)
+	cx.floor("stored_divisors", 1)
+	cx.floor("divisor_writers", 2)
 }
